@@ -85,8 +85,11 @@ fn matcher(ins: &[POp], outs: &[PathOp], i: usize, o: usize, cursor: Option<P2>,
                 if biteq(p, end.0, end.1) {
                     // candidate: the curve ends here; deviation of the curve from the polyline
                     let mut dev = 0.0f64;
+                    // a curve that opens the path has no earlier op that emits its starting
+                    // point: the emitted polyline itself must begin within the deviation of it
+                    let emitted: &[P2] = if cursor.is_none() { &pts[1..] } else { &pts[..] };
                     for s in curve.sample(64) {
-                        dev = dev.max(dist_polyline(s, &pts));
+                        dev = dev.max(dist_polyline(s, emitted));
                     }
                     if dev > 8.0 * tol + 1e-3 {
                         let e = Fail { clause: "deviation-exceeds-8x-tolerance", detail: format!("input op {} ({:?}) from start ({},{}): polyline of {} segment(s) deviates {:.4} from the curve, tolerance {}", i, ins[i], curve.start().0, curve.start().1, k, dev, tol), depth: i };
